@@ -45,6 +45,8 @@ def touched(d: dict) -> tuple[set, set, bool]:
                 ops.add(txt.split(' ')[1])
             elif txt.startswith(('R ', 'C ')):
                 result = True
+            elif txt.startswith('H '):
+                fields.add('phh')
             elif txt == '.' or txt.startswith(('D ', 'Q ')) or txt == '<end>':
                 # stream shapes differ (one side logged more operations)
                 ops.add('*')
@@ -106,6 +108,16 @@ engine_prop('C10', ['C10'], DEAL_FIELDS, DEAL_OPS)
 engine_prop('C12', ['C12'], SHOW_FIELDS | CHIP_FIELDS, SHOW_OPS)
 engine_prop('C11', ['C11'], {'variant_table', 'min_cbr', 'pot_cbr', 'max_cbr', 'can_cbr', 'cbrCnt', 'cbrAmt'},
             {'CompletionBettingOrRaisingTo'}, profile={'predefined': True}, pre=pre_c11)
+def pre_c16():
+    import phh
+    r = phh.check_parse_lines(20250916, 4000)
+    pseudo = [dict(case='parse-action', seed=0, at_op=0, line_no=0, expected=d['expected'], actual=d['actual'],
+                   fields=[('phh', d['expected'], d['actual'])], script=['case parse-action', 'parseline ' + d['input']],
+                   meta={'variant': 'custom', 'line': d['input']}) for d in r['diffs']]
+    return dict(diffs=pseudo, coverage=dict(parsed_action_lines=r['count'], parse_differences=len(r['diffs'])))
+
+
+engine_prop('C16', ['C16'], {'phh'}, set(), profile={'predefined': True}, pre=pre_c16)
 engine_prop('C13', ['C13'], {'opener', 'actors', 'actor', 'turn', 'bringin', 'completion'}, BET_OPS)
 engine_prop('C14', ['C14'], RUNOUT_FIELDS | {'subpots', 'pots_'}, {'RunoutCountSelection', 'BoardDealing', 'ChipsPushing', 'HoleCardsShowingOrMucking'})
 engine_prop('C15', ['C15'], set(), ALL_OPS)
@@ -210,6 +222,7 @@ def replay(pid: str, spec: dict, path: str) -> int:
     import opener  # noqa: F401
     import runout  # noqa: F401
     import variants  # noqa: F401
+    import phh  # noqa: F401
     d = json.load(open(path))
     if spec['kind'] == 'eval':
         return replay_eval(pid, d)
